@@ -97,6 +97,16 @@ fn main() {
 		}
 		("replay", "C20") => c20::replay(&args[3], &args[4]),
 		("replay", "TILEJSON") => tj::replay(&args[3], &args[4]),
+		// the tile sets around the PMTiles writer's root / leaf switch (found by probing the real writer), as container cases
+		("boundary", "PMTILES") => {
+			let cases = container::pmtiles_boundary_cases(seed, thorough);
+			let mut out = util::Out::create(&args[3]);
+			for c in &cases {
+				out.emit(c);
+			}
+			let n = out.finish();
+			serde_json::json!({"cases": n})
+		}
 		("replay", "HTTPRANGE") => httpd::replay(&args[3], &args[4], &args[5]),
 		("record", "C20") => c20::record(&args[3], seed, thorough),
 		_ => {
